@@ -252,6 +252,9 @@ pub mod sync;
 #[doc(hidden)]
 pub mod test_utils;
 pub mod utils;
+#[cfg(p2panda_p2panda_verif)]
+#[doc(hidden)]
+pub mod verif_gate;
 pub mod watchers;
 
 #[cfg(feature = "address_book")]
